@@ -179,7 +179,7 @@ CLAIMED = {
         note="Trusted: Coq kernel + vm_compute; hand-written model tied by differential testing; Q models f32.",
         technique="Coq proof (scalar lemmas by lra/nra/field lifted over steps) + model/impl correspondence + oracle search"),
     "C13": dict(
-        text="Machine-checked theorems for every component list with non-negative values (zero or >= 0.01 kWh), k_exp = 0, "
+        text="Machine-checked theorems for every component list with non-negative values (of any size: no floor since fix c3bd83b), k_exp = 0, "
              "both load-matching modes and every factor set with the regulatory structure reg_set (decided by reg_setb, "
              "evaluated in Coq on the four prepared location sets dumped from the compiled code on every run): the "
              "reported primary energy has ren >= 0, nren >= 0, co2 >= 0 — including buildings with cogeneration, by a "
@@ -294,7 +294,7 @@ CLAIMED = {
         technique="Coq model of Display/FromStr + per-record round-trip theorems + char-exact Display correspondence + read-back and re-evaluation oracle"),
     "C14": dict(
         text="Theorems over the balance model, with and without load matching, for one more EL_INSITU production component with "
-             "non-negative values appended to ANY component set (values 0 or >= 0.01 kWh): C14_grid_delivered_never_grows, "
+             "non-negative values appended to ANY component set with non-negative values (no floor on the values since fix c3bd83b): C14_grid_delivered_never_grows, "
              "C14_exported_never_shrinks (total and cogenerated exports), and C14_nren_co2_never_grow: under any factor set "
              "that is regular for the electricity carrier before and after (the regulatory sets are, RerFacts.regular_*), "
              "with non-negative grid and cogeneration factors and k_exp in [0,1], the non-renewable primary energy and the "
